@@ -36,7 +36,7 @@ Lemma split_lex_some : forall ps g t ps2, split_lex ps = (g, Some (t, ps2)) -> p
 Proof.
   induction ps as [|p ps IH]; intros g t ps2 H; [discriminate|].
   destruct p; cbn [split_lex] in H;
-    try (destruct (split_lex ps) as [g' o] eqn:E; cbn [fst snd] in H; injection H as <- ->;
+    try (destruct (split_lex ps) as [g' o] eqn:E; injection H as <- ->;
          destruct (IH _ _ _ eq_refl) as [-> L]; split; [reflexivity|exact L]).
   injection H as <- <- <-. split; reflexivity.
 Qed.
@@ -44,7 +44,7 @@ Lemma split_lex_none : forall ps g, split_lex ps = (g, None) -> ps = g /\ lex_fr
 Proof.
   induction ps as [|p ps IH]; intros g H; [injection H as <-; split; reflexivity|].
   destruct p; cbn [split_lex] in H;
-    try (destruct (split_lex ps) as [g' o] eqn:E; cbn [fst snd] in H; injection H as <- ->;
+    try (destruct (split_lex ps) as [g' o] eqn:E; injection H as <- ->;
          destruct (IH _ eq_refl) as [-> L]; split; [reflexivity|exact L]).
   discriminate.
 Qed.
